@@ -32,6 +32,14 @@ def layout_kind(name):
 
 
 STR_MODES = ["normal", "wm1", "full_all", "full_rot", "mixed"]
+# a string mode may carry a suffix: "+ss" (the sockaddr field of the NetBSD i386 utmpx / lastlogx
+# layouts holds a sockaddr_in with printable bytes), "+ss10" (... of the address 10.x.y.z: a newline
+# byte), "+utf8" (user / host names with UTF-8 encoded non-ASCII letters)
+
+
+def split_mode(strmode):
+    base, _, ext = (strmode or "normal").partition("+")
+    return base or "normal", ext
 _FILL = "_" + "abcdefghijklmnopqrstuvwxyz" * 12
 
 
@@ -42,6 +50,7 @@ def pad_to(s, n):
 def cstr_mode(lay, i, j, strmode):
     """how C-string field number j of record i is filled: 'normal' (short, NUL terminated),
     'wm1' (width-1 bytes then one NUL), 'full' (the whole width, no terminating NUL)"""
+    strmode, _ = split_mode(strmode)
     if strmode in (None, "normal"):
         return "normal"
     if strmode == "wm1":
@@ -60,16 +69,31 @@ def field_values(lay, i, strmode=None):
     """values written into record number i (a record's own, distinguishable values)"""
     v = {}
     j = -1
+    _, ext = split_mode(strmode)
     for f in lay["fields"]:
         lab, kind, size = f["label"], f["kind"], f["size"]
+        if kind == "b":             # sockaddr_storage, printed raw up to its first NUL
+            if ext in ("ss", "ss10"):
+                r = random_for(lay["name"], i)
+                sa = [16, 2] + [r.choice([c for c in range(0x21, 0x7F) if c != 0x27]) for _ in range(6)]
+                if ext == "ss10":
+                    sa[4] = 10
+                v[lab] = bytes(sa).decode("latin-1")
+            else:
+                v[lab] = ""
+            continue
         if kind == "c":
             j += 1
             if "line" in lab:
                 s = "pts/%d" % i
             elif lab in ("ut_user", "ut_name"):
                 s = "u%d" % i
+                if ext == "utf8":
+                    s = ("j\u00fcrgen%d" % i) if size >= 16 else ("\u00fc%d" % i)
             elif "host" in lab:
                 s = "h%d.example" % i
+                if ext == "utf8" and size >= 24:
+                    s = "h%d.b\u00fcro.example" % i
             elif lab == "ut_id":
                 s = "i%d" % (i % 100)
             elif lab == "ac_comm":
@@ -77,16 +101,22 @@ def field_values(lay, i, strmode=None):
             else:
                 s = "x%d" % i
             m = cstr_mode(lay, i, j, strmode)
-            v[lab] = s[:size - 1] if m == "normal" else pad_to(s, size - 1 if m == "wm1" else size)
+            if ext == "utf8":
+                while len(s.encode()) > size - 1:
+                    s = s[:-1]
+                v[lab] = s
+            else:
+                v[lab] = s[:size - 1] if m == "normal" else pad_to(s, size - 1 if m == "wm1" else size)
         elif kind in ("i", "u"):
             if lab == "ut_type":
                 v[lab] = 7
             elif lab in ("ut_pid", "ac_pid"):
-                v[lab] = 1000 + i
+                # process ids go up to 2^22 on Linux: values beyond 16 and 17 bits as well
+                v[lab] = [1000 + i, 40000 + i, 70000 + i, 4194000 + i][i % 4] if size >= 4 else 1000 + i
             elif lab == "ac_ppid":
-                v[lab] = 1
+                v[lab] = [1, 33000 + i, 3000000 + i][i % 3]
             elif lab == "ut_session":
-                v[lab] = 1 + i % 50
+                v[lab] = [1 + i % 50, 70000 + i][i % 2] if size >= 4 else 1 + i % 50
             elif lab in ("e_termination", "e_exit", "ut_exit"):
                 v[lab] = 0x4545 + i % 3          # non-zero bytes right after ut_host
             elif lab == "ac_flag":
@@ -94,10 +124,15 @@ def field_values(lay, i, strmode=None):
             elif lab == "ac_version":
                 v[lab] = 3
             elif lab in ("ac_uid", "ac_gid"):
-                v[lab] = 1000 + (i % 7)
+                v[lab] = [1000 + (i % 7), (60000 if size == 2 else 100000) + (i % 7)][i % 2]
             else:
                 v[lab] = 0
     return v
+
+
+def random_for(name, i):
+    import random
+    return random.Random("%s/%d" % (name, i))
 
 
 def put_int(buf, off, size, val, signed):
@@ -125,6 +160,9 @@ def make_record(lay, i, tv, null_kind=None, strmode=None):
             b = vals[lab].encode()
             assert len(b) <= size
             buf[off:off + len(b)] = b
+        elif kind == "b":
+            b = vals[lab].encode("latin-1")
+            buf[off:off + len(b)] = b
         elif kind in ("i", "u"):
             put_int(buf, off, size, vals[lab], kind == "i")
     sec, usec = (0, 0) if null_kind == "zerotime" else tv
@@ -144,6 +182,8 @@ def expected_patterns(lay, i, tv, strmode=None):
         lab, kind = f["label"], f["kind"]
         if kind == "c":
             pats.append((lab, r"(?:^|[ '])%s '?%s'" % (re.escape(lab), re.escape(vals[lab]))))
+        elif kind == "b":
+            pats.append((lab, r"(?:^|[ '])%s '?%s(?:'|$)" % (re.escape(lab), re.escape(vals[lab]))))
         elif kind in ("i", "u"):
             if lab == "ut_type":
                 pats.append((lab, r"(?:^|[ '])ut_type %s(?: |$)" % UT_TYPE_STR[vals[lab]]))
